@@ -68,9 +68,13 @@ func xmlEsc(s string) string {
 	return strings.NewReplacer("&", "&amp;", "<", "&lt;", ">", "&gt;").Replace(s)
 }
 
-func renderTTMLPlain(cues []srtCue) []byte {
+func renderTTMLPlain(cues []srtCue, frameRate int) []byte {
 	var b strings.Builder
-	b.WriteString(`<?xml version="1.0" encoding="UTF-8"?>` + "\n" + `<tt xmlns="http://www.w3.org/ns/ttml" xml:lang="en"><head><metadata/></head><body><div>` + "\n")
+	fr := ""
+	if frameRate > 0 {
+		fr = fmt.Sprintf(` xmlns:ttp="http://www.w3.org/ns/ttml#parameter" ttp:frameRate="%d"`, frameRate)
+	}
+	b.WriteString(`<?xml version="1.0" encoding="UTF-8"?>` + "\n" + `<tt xmlns="http://www.w3.org/ns/ttml"` + fr + ` xml:lang="en"><head><metadata/></head><body><div>` + "\n")
 	for _, c := range cues {
 		var ls []string
 		for _, l := range plainLines(c) {
@@ -162,7 +166,7 @@ func renderSTLPlain(cues []srtCue, dsc byte, fps int64, tcpSeconds int64) []byte
 func renderTSPlain(r *rng, cues []srtCue) ([]byte, error) {
 	sch := &ttxSchedule{Magazine: 8, Page: 88, Charset: 4, Serial: true, PID: 300}
 	for i, c := range cues {
-		inst := ttxInstance{PTS: 10000 + c.Start/1e6}
+		inst := ttxInstance{PTS: 10000 + c.Start/1e6, Charset: 4}
 		for li, l := range plainLines(c) {
 			cells := append([]byte{0x0b, 0x0b}, []byte(l)...)
 			cells = append(cells, 0x0a)
@@ -170,7 +174,7 @@ func renderTSPlain(r *rng, cues []srtCue) ([]byte, error) {
 		}
 		sch.Instances = append(sch.Instances, inst)
 		if i == len(cues)-1 || cues[i+1].Start > c.End {
-			sch.Instances = append(sch.Instances, ttxInstance{PTS: 10000 + c.End/1e6, Erase: true})
+			sch.Instances = append(sch.Instances, ttxInstance{PTS: 10000 + c.End/1e6, Erase: true, Charset: 4})
 		}
 	}
 	ts, _, err := buildTS(r, sch, ttxMux{})
@@ -421,8 +425,23 @@ func suiteConvert(R *runner, r *rng) {
 						}
 					}
 				}
+				// every third repetition: a cue list not in start order in which a cue with another text starts exactly on a
+				// fragment boundary of a longer cue and is listed before it, then fragment + unfragment
+				var crafted []convOp
+				if rep%3 == 1 && sf != "ts" {
+					cues = plainCues(r, 2)
+					f := (1 + r.i64n(20)) * 4e7
+					m := int64(2 + r.intn(4))
+					k := 1 + r.i64n(m-1)
+					cues[0].Lines[0][0].Text = "b" + cues[0].Lines[0][0].Text
+					cues[1].Lines[0][0].Text = "a" + cues[1].Lines[0][0].Text
+					cues[0].Start, cues[0].End = k*f, k*f+(1+r.i64n(3))*4e7
+					cues[1].Start, cues[1].End = 0, m*f
+					crafted = []convOp{{name: "fragment", f: f}, {name: "unfragment"}}
+				}
 				var src []byte
 				var err error
+				dstUnit := dstFormats[df].unit
 				switch sf {
 				case "srt":
 					d, _ := renderSrt(r, cues)
@@ -432,7 +451,12 @@ func suiteConvert(R *runner, r *rng) {
 				case "ssa", "ass":
 					src = renderSSAPlain(cues)
 				case "ttml":
-					src = renderTTMLPlain(cues)
+					rate := []int{24, 0, 50, 25, 30, 0}[rep%6] // frame rates the other formats have no code for included
+					src = renderTTMLPlain(cues, rate)
+					if rate == 30 && df == "stl" {
+						// the frame rate travels with the cues: the destination is a 30 frames/s STL file, its unit is 1/30 s
+						dstUnit = func(t int64) int64 { return (t * 30 / 1e9) * 1e9 / 30 }
+					}
 				case "stl":
 					src = renderSTLPlain(cues, []byte{'0', '1', '2'}[r.intn(3)], 25, 0)
 				case "ts":
@@ -500,6 +524,7 @@ func suiteConvert(R *runner, r *rng) {
 						tol = dstFormats[df].ns // one destination unit: float/truncation slack of the linear correction
 					}
 				}
+				ops = append(crafted, ops...)
 				wantOps := applyOpsSpec(want, ops)
 				nonneg := true
 				for _, c := range wantOps {
@@ -549,7 +574,7 @@ func suiteConvert(R *runner, r *rng) {
 						return
 					}
 					t := tol
-					if m := comparePlain(plainOf(back), wantOps, dstFormats[df].unit, t); m != "" {
+					if m := comparePlain(plainOf(back), wantOps, dstUnit, t); m != "" {
 						fail(m, "convert-value-"+sf+"->"+df)
 					}
 				}, 20*time.Second)
@@ -610,7 +635,7 @@ func suiteConvert(R *runner, r *rng) {
 						if rerr != nil {
 							o2.Oracle, o2.Sig = fmt.Sprintf("%s -> %s via CLI: re-reading failed: %v", sf, df, rerr), "convert-reread-"+df
 						} else if nonnegCLI {
-							if m := comparePlain(plainOf(back), wantCLI, dstFormats[df].unit, 0); m != "" {
+							if m := comparePlain(plainOf(back), wantCLI, dstUnit, 0); m != "" {
 								o2.Oracle, o2.Sig = fmt.Sprintf("%s -> %s via CLI %s: %s", sf, df, args[0], m), "convert-value-"+sf+"->"+df
 							}
 						}
